@@ -957,13 +957,15 @@ def case_key(c):
 
 
 def detect_variant(ctx: Ctx, witness: dict):
-    """which variant of the D11 decision point does the code implement? (DESIGN §6)"""
-    got = []
-    eval_case(ctx, witness, collect=got)
-    if got and got[0][0] != "ok" and not got[0][1]:
-        VARIANT["fix"] = 1
-    else:
-        VARIANT["fix"] = 0
+    """which variant of the D11 decision point does the code implement? (DESIGN §6): replay the witness on
+    the implementation alone; the model is then asked for that variant everywhere"""
+    w = World(witness["origin"], witness["rel"])
+    zone = make_zone(w, witness["zk"], witness["v0"])
+    before = full_dump(zone, w.origin)
+    msgs, wires = build_messages(w, witness)
+    _, res, _ = run_impl(zone, w, witness, msgs, wires)
+    changed = full_dump(zone, w.origin) != before
+    VARIANT["fix"] = 1 if (res != "ok" and not changed) else 0
     ctx.extra["d11_variant"] = "intended (surplus refused before commit)" if VARIANT["fix"] else "as shipped (commit, then FormError)"
 
 
